@@ -3,8 +3,9 @@ CONSTANTS N = 2
           Names = {"", "a"}
           Devs = {}
           InitDags <- AllDags
+          MaxMiss = 1
+          ModeSet = {1, 2, 3, 4, 5, 6, 7}
+          FaultSet = {"none", "cancelled", "cancelFetch"}
           E = 0
-          GenFaults = {"none", "cancelled", "cancelFetch"}
-          GenModes = {1, 2, 3, 4, 5, 6, 7}
           MaxMissing = 0
 VIEW SGView
